@@ -4,7 +4,7 @@ From Coq Require Import String Ascii.
 From Coq Require Import List Arith Bool Permutation.
 Require Import TT.Model.Str TT.Model.C07TypeParse TT.Model.C07Harvest TT.Model.C07Worklist TT.Model.C07Reach.
 Require Import TT.Spec.C07Spec TT.Spec.C07Known.
-Require Import TT.Proofs.C07TypeParseProofs TT.Proofs.C07HarvestProofs TT.Proofs.WorklistSpike TT.Proofs.C07Proofs TT.Proofs.C07Concrete TT.Proofs.C07Agree TT.Proofs.C07Lift TT.Proofs.C07Full TT.Proofs.C07Total TT.Proofs.C07Witness.
+Require Import TT.Proofs.C07TypeParseProofs TT.Proofs.C07HarvestProofs TT.Proofs.WorklistSpike TT.Proofs.C07Proofs TT.Proofs.C07Concrete TT.Proofs.C07Agree TT.Proofs.C07Lift TT.Proofs.C07Full TT.Proofs.C07Total TT.Proofs.C09Oracle TT.Proofs.C07Witness.
 Import ListNotations.
 
 (* For every iteration order of every hash collection (root set, dependency sets, used set, field name
@@ -20,6 +20,15 @@ Theorem C07_exact : forall (o : orders) (p : project) (decl : list str),
   C07Reach.declared o p = Some decl ->
   NoDup decl /\ (forall x, In x decl <-> SpecReach p x) /\ Permutation decl (reachable_spec p).
 Proof. exact declared_exact_full. Qed.
+
+(* reflection of the run-time oracle: c07_ok accepts what was read from a types.ts exactly when the file declares,
+   once each, precisely the expected names (aliases: duplicate free, of declared types) *)
+Theorem C07_oracle_exact : forall expected o, c07_ok expected o = true <-> DeclaredExactly expected o.
+Proof. exact c07_oracle_exact. Qed.
+(* with the specification's list: exactly once each, precisely the reachable serde types of the property text *)
+Theorem C07_oracle_spec : forall p o, in_domain p = true -> c07_ok (reachable_spec p) o = true ->
+  NoDup (ob_types o) /\ (forall x, In x (ob_types o) <-> SpecReach p x) /\ Permutation (ob_types o) (reachable_spec p).
+Proof. exact c07_oracle_spec. Qed.
 
 (* the same from decidable premises only (evaluated on every generated case by the extracted code):
    the three readers of type strings agree on the defined names, no type is reachable through the
@@ -124,6 +133,8 @@ Example C07_ex_harvest : extract_type_names (tts ex2) = [L "A"; L "B"] /\ extrac
 Proof. split; vm_compute; reflexivity. Qed.
 
 Print Assumptions C07_exact.
+Print Assumptions C07_oracle_exact.
+Print Assumptions C07_oracle_spec.
 Print Assumptions C07_exact_decidable_premises.
 Print Assumptions C07_spec_oracle_exact.
 Print Assumptions C07_exact_permutation.
